@@ -402,6 +402,8 @@ fn json_subject(env: &mut Env, text: &[u8], groups: u32) -> Summary {
 
 fn simple_subject(env: &mut Env, text: &[u8]) -> Summary {
     let mut sm = Summary::default();
+    // classification only (the validator itself is exercised by json-lib)
+    sm.validator_ok = catch(|| succinctly::json::validate::validate(text).is_ok()).unwrap_or(false);
     let Some(ix) = api!(env, "SimpleJsonIndex::build", SimpleJsonIndex::build(text)) else { return sm };
     sm.loader_ok = true;
     let n = api!(env, "SimpleJsonIndex::structural_count", ix.structural_count()).unwrap_or(0);
@@ -662,6 +664,8 @@ fn dsv_subject(env: &mut Env, text: &[u8], cfg: &DsvConfig) -> Summary {
     api!(env, "dsv::build_index_scalar", dsv::build_index_scalar(text, cfg).row_count());
     let Some(ix) = api!(env, "dsv::build_index", dsv::build_index(text, cfg)) else { return sm };
     sm.loader_ok = true;
+    // DSV has no strict validator: "rejects" = unbalanced quoting (odd number of quote bytes)
+    sm.validator_ok = text.iter().filter(|&&b| b == cfg.quote_char).count() % 2 == 0;
     let rows = api!(env, "DsvIndex::row_count", (ix.row_count(), ix.marker_count(), ix.is_empty())).map(|t| t.0).unwrap_or(0);
     sm.nodes = ix.marker_count();
     api!(env, "DsvCursor::fields-walk", dsv_cursor_walk(&mut DsvCursor::new(text, &ix)));
